@@ -139,11 +139,17 @@ static Op parse_op(const std::string& s) {
   return o;
 }
 
-static std::string str_of(long id) {  // content id <-> string (odd ids short / SSO, even ids long / heap)
+// content id <-> byte string: id 0 = empty; odd ids short (SSO), even ids longer than the SSO buffer (heap);
+// ids with id % 5 == 3 (3: short, 8: long, ...) carry an embedded NUL byte at position 1 (binary payload).
+// The decoder compares the FULL byte content and the length.
+static std::string str_of(long id) {
   if (id <= 0) return "";
   size_t len = (id % 2) ? (size_t)(id % 7 + 1) : (size_t)(20 + id);
-  return std::string(len, (char)('a' + (id % 26)));
+  std::string s(len, (char)('a' + (id % 26)));
+  if (id % 5 == 3 && len >= 2) s[1] = '\0';
+  return s;
 }
+static bool has_nul(const std::string& s) { return s.find('\0') != std::string::npos; }
 template <typename S>
 static long id_of_str(const S& s) {
   if (s.empty()) return 0;
@@ -197,13 +203,16 @@ struct KStrT {
   using Ext = std::string;
   static Ext make(long id, typename Vec::allocator_type) { return str_of(id); }
   static long decode(const T& t) { return id_of_str(t); }
+  // emplace arguments: (const char*) for text, (const char*, size) for binary payloads (embedded NUL)
   static void eb_val(Vec& v, long id) {
     std::string s = str_of(id);
-    v.emplace_back(s.c_str());
+    if (has_nul(s)) v.emplace_back(s.data(), s.size());
+    else v.emplace_back(s.c_str());
   }
   static void em_val(Vec& v, size_t pos, long id) {
     std::string s = str_of(id);
-    v.emplace(v.begin() + pos, s.c_str());
+    if (has_nul(s)) v.emplace(v.begin() + pos, s.data(), s.size());
+    else v.emplace(v.begin() + pos, s.c_str());
   }
   static void pb_move(Vec& v, long id, typename Vec::allocator_type a) { v.push_back(StrT(str_of(id), a)); }
   static void in_move(Vec& v, size_t pos, long id, typename Vec::allocator_type a) { v.insert(v.begin() + pos, StrT(str_of(id), a)); }
@@ -634,7 +643,7 @@ struct StrRunner {
     else if (n == "res") v->reserve((size_t)o.b);
     else if (n == "clr") v->clear();
     else if (n == "asgn") v->assign((size_t)o.b, ch(o.x));
-    else if (n == "asgr") v->assign(q.begin(), q.end());
+    else if (n == "asgr") { if (q.size() % 2) *v = q; else v->assign(q.begin(), q.end()); }  // operator=(const std::string&) / assign(range)
     else if (n == "swp") v->swap(*w);
     else if (n == "mva") *v = std::move(*w);
     else if (n == "cpa") { const S& cw = *w; *v = cw; }
@@ -747,7 +756,9 @@ struct MVS : MVecBase<SwissVector<SwissString>, MVS> {
   void fill(const std::vector<long>& ids) override {
     for (size_t i = 0; i < ids.size(); ++i) {
       std::string s = str_of(ids[i]);
-      if (i % 2)
+      if (i % 2 && has_nul(s))
+        acc->emplace_back(s.data(), s.size());
+      else if (i % 2)
         acc->emplace_back(s.c_str());
       else
         acc->push_back(s);
